@@ -1,7 +1,7 @@
 (* Shared case format of the revocation properties (C04, C05, C06, C10, C11, C12). *)
 From NCG Require Export Model.Revocation.
 
-Definition pos_out := (cres * (list Z * list Z))%type.   (* result, (OCSP URLs contacted, CRL URLs fetched) *)
+Definition pos_out := (cres * list Z)%type.   (* result, URLs exchanged with for this certificate, in order *)
 
 Record rcase := mk {
   r_id : Z;
@@ -28,7 +28,7 @@ Definition model_out (c : rcase) : option (list pos_out) :=
 
 Definition Zlist_eqb := list_eqb Z.eqb.
 Definition pos_eqb (a b : pos_out) : bool :=
-  cres_eqb (fst a) (fst b) && Zlist_eqb (fst (snd a)) (fst (snd b)) && Zlist_eqb (snd (snd a)) (snd (snd b)).
+  cres_eqb (fst a) (fst b) && Zlist_eqb (snd a) (snd b).
 Definition out_eqb (a b : option (list pos_out)) : bool := option_eqb (list_eqb pos_eqb) a b.
 
 (* full agreement of everything observed *)
